@@ -137,6 +137,10 @@ func Ob_C11C13_HandleExpiredShard_Rotate() {
 	s1, still := w.Order.GetShard(w.Ctx, sid)
 	sym.Assert("C11.rotate-shard-kept", still && s1.Status == ordertypes.ShardCompleted && s1.OrderId == next.OrderId &&
 		s1.CreatedAt == uint64(w.Height()) && s1.Duration == next.Duration && len(s1.RenewInfos) == len(s.RenewInfos)-1)
+	// the remaining queue is the old queue without its head (the periods still to come are untouched)
+	for i := 0; i+1 < len(s.RenewInfos) && i < len(s1.RenewInfos); i++ {
+		sym.Assert("C11.rotate-keeps-later-renewals", sym.DeepEq(&s1.RenewInfos[i], &s.RenewInfos[i+1]))
+	}
 	e, has := w.Sao.GetExpiredShard(w.Ctx, uint64(w.Height())+next.Duration)
 	sym.Assert("C11.rotate-rescheduled", has && inListU64(sid, e.ShardList))
 	sym.Assert("C07.rotate-no-collateral-move", w.TransferCount() == nT)
